@@ -31,6 +31,12 @@ package fsstore
 //@   requires store != nil && ctx != nil
 //@   loop 0 assigns ghostall("string.owned"), ghostall("string.closed")
 
+// Put commits under the key only when the whole content was written; otherwise it aborts (empty key).
+//@ func (*Store).Put(ctx, key, content) (err)
+//@   nosafety
+//@   requires store != nil && ctx != nil
+//@   before wrCommitter assert[C18] carg0 == "" || (err == nil && carg0 == key)
+
 //@ func (*Store).PutStream$1(key) (err)
 //@   requires f != nil && f.path == stagepath && stagepath.owned && os.instaging(stagepath)
 //@   requires store != nil && store.shardingFunc != nil && store.escapingFunc != nil
